@@ -65,6 +65,12 @@ class StmtMixin:
             self.assign_target(s.target, self.ev(s.value, st, fr), st, fr)
 
     def st_AugAssign(self, s, st, fr):
+        if isinstance(s.target, ast.Subscript):
+            base = self.ev(s.target.value, st, fr)
+            if hasattr(base, "masked_iop"):
+                idx = self.ev_index(s.target.slice, st, fr)
+                base.masked_iop(idx, s.op, self.ev(s.value, st, fr), self, st)
+                return
         if isinstance(s.target, ast.Name):
             cur = self.ev(s.target, st, fr)
         elif isinstance(s.target, ast.Attribute):
